@@ -92,18 +92,21 @@ CmdMemoViol(r) ==
   IF Ev.ci > 0 /\ run.kind = "reject" /\ CmdKey \in DOMAIN memoCmd /\ memoCmd[CmdKey].cfg = run.cfg
   THEN If( /\ memoCmd[CmdKey].r # r
            /\ ~(r \in {"unknown", "timeout"}) /\ ~(memoCmd[CmdKey].r \in {"unknown", "timeout"}),
-           V("C19", [clean |-> memoCmd[CmdKey].r, withRejected |-> r]))
+           V("C19", [clean |-> memoCmd[CmdKey].r, withRejected |-> r])) \cup
+       \* the same answer class, but what a query printed differs (models, cores, interpolants, proofs)
+       If( /\ memoCmd[CmdKey].r = r /\ Ev.rh # "" /\ memoCmd[CmdKey].rh # "" /\ memoCmd[CmdKey].rh # Ev.rh,
+           V("C19", [m |-> "a query prints something else than in the script without the rejected commands", cmd |-> Ev.c]))
   ELSE {}
 CmdMemoUpd(r) ==
   memoCmd' = IF Ev.ci > 0 /\ run.kind = "main" /\ CmdKey \notin DOMAIN memoCmd
-             THEN (CmdKey :> [r |-> r, cfg |-> run.cfg]) @@ memoCmd ELSE memoCmd
+             THEN (CmdKey :> [r |-> r, cfg |-> run.cfg, rh |-> Ev.rh]) @@ memoCmd ELSE memoCmd
 
 \* ---- commands ---------------------------------------------------------
 IsCmd(c) == Ev.e = "Cmd" /\ Ev.c = c
 
 \* a command the harness knows to be illegal (syntax, sorts, unknown symbols,
 \* wrong mode) must be answered by an error
-MustRejectViol == If(Ev.must = "reject" /\ Ev.r # "error", V("C18", [m |-> "illegal command accepted"]))
+MustRejectViol == If(Ev.must = "reject" /\ Ev.r # "error", V("C18", [m |-> "illegal command accepted"])) \cup CmdMemoViol(Ev.r)
 
 TrReject ==
   /\ Ev.e = "Cmd" /\ Ev.r = "error" /\ Step /\ Reject
